@@ -281,6 +281,20 @@ def check_fixed(ctx, title, cls, dfn, di, efn, ei, fields, A=None):
                       key=('W1', title, 'reserved-encoded', o), site=esite, detail={'found': tq.text(a) if a is not None else None})
 
 
+def registry_consistent(ctx, rule):
+    """type_2_payload maps each payload type of RFC 7296 3.2 to the class that declares that very type: the parser (and the code that
+    inspects parsed messages) tells payloads apart by `payload.type`, so an entry whose class declares another type yields an object
+    that is taken for something it is not"""
+    reg = common.payload_registry(ctx)
+    ctx.check(set(reg) == set(REGISTRY), rule, 'the payload registry covers SA KE IDi IDr AUTH NONCE VENDOR NOTIFY TSi TSr SK DELETE',
+              key=(rule, 'registry-keys'), detail={'found': sorted(reg)})
+    for k, c in reg.items():
+        tv = c.lookup_attr('type')
+        ctx.check(c.name == REGISTRY.get(k) and tv is not None and src(tv).endswith('Type.' + k), rule,
+                  'type_2_payload[%s] is %s and that class declares type %s' % (k, REGISTRY.get(k), k), key=(rule, 'registry', k),
+                  detail={'class': c.name, 'type': src(tv) if tv is not None else None})
+
+
 def run(ctx):
     prog, res = ctx.prog, ctx.res
     esc = ctx.escape('engine', kills=common.engine_kills(ctx))
@@ -323,15 +337,12 @@ def run(ctx):
     check_header(ctx, esc)
     check_generic_header(ctx, esc)
 
+    # Encrypted payload (3.14): the Integrity Checksum Data field has the length of the negotiated transform's ICV
+    from .c07 import icv_table
+    icv_table(ctx, 'W2')
+
     # ---------------------------------------------------------------- W3
-    reg = common.payload_registry(ctx)
-    ctx.check(set(reg) == set(REGISTRY), 'W3', 'the payload registry covers SA KE IDi IDr AUTH NONCE VENDOR NOTIFY TSi TSr SK DELETE',
-              key=('W3', 'registry-keys'), detail={'found': sorted(reg)})
-    for k, c in reg.items():
-        tv = c.lookup_attr('type')
-        ctx.check(c.name == REGISTRY.get(k) and tv is not None and src(tv).endswith('Type.' + k), 'W3',
-                  'type_2_payload[%s] is %s and that class declares type %s' % (k, REGISTRY.get(k), k), key=('W3', 'registry', k),
-                  detail={'class': c.name, 'type': src(tv) if tv is not None else None})
+    registry_consistent(ctx, 'W3')
     nconst = 0
     for q, want in IANA.items():
         have = prog.enum_members(M + q)
@@ -543,7 +554,7 @@ def addr_len_ok(ctx, t, type_term):
     return vals == [4, 16]
 
 
-def check_ts(ctx):
+def check_ts(ctx, r1='W1', r2='W2'):
     prog = ctx.prog
     c = prog.cls(M + 'TrafficSelector')
     pf, tb = c.lookup('parse'), c.lookup('to_bytes')
@@ -566,25 +577,25 @@ def check_ts(ctx):
         le, se = layout(fe, A)
         ok = l1 == [(0, 1), (1, 1), (2, 2), (4, 2), (6, 2)] and l2 == [(0, A), (A, A)] and rel \
             and le == [(0, 1), (1, 1), (2, 2), (4, 2), (6, 2), (8, A), (8 + A, A)]
-        ctx.check(ok, 'W1', 'Traffic Selector (3.13.1) with %d-octet addresses: type, protocol, length, start port, end port, '
-                  'start address, end address at offsets 0,1,2,4,6,8,%d in both directions' % (A, 8 + A), key=('W1', 'ts-layout', A),
+        ctx.check(ok, r1, 'Traffic Selector (3.13.1) with %d-octet addresses: type, protocol, length, start port, end port, '
+                  'start address, end address at offsets 0,1,2,4,6,8,%d in both directions' % (A, 8 + A), key=(r1, 'ts-layout', A),
                   site=ctx.site(pf, pf.node))
     ap = attr_params(ctx, c)
     rets = ctor_returns(ctx, c, pf)
     used = set()
     for t in all_terms(D):
         used |= indices_in(t, ups[0].term)
-    ctx.check(2 not in used, 'W1', 'Traffic Selector: the selector length field is not trusted for slicing inside parse',
-              key=('W1', 'ts', 'length-ignored'), site=ctx.site(pf, pf.node))
+    ctx.check(2 not in used, r1, 'Traffic Selector: the selector length field is not trusted for slicing inside parse',
+              key=(r1, 'ts', 'length-ignored'), site=ctx.site(pf, pf.node))
     for i, at in ((0, 'ts_type'), (1, 'ip_proto'), (3, 'start_port'), (4, 'end_port')):
         got = {a for pc, args in rets for a, p_ in ap.items() if i in indices_in(args.get(p_, NONE), ups[0].term)
                and not (a in ('start_addr', 'end_addr'))}
-        ctx.check(got == {at}, 'W1', 'Traffic Selector: the value decoded at position %d becomes attribute %s' % (i, at),
-                  key=('W1', 'ts', 'flow', at), site=ctx.site(pf, pf.node), detail={'flows to': sorted(got)})
+        ctx.check(got == {at}, r1, 'Traffic Selector: the value decoded at position %d becomes attribute %s' % (i, at),
+                  key=(r1, 'ts', 'flow', at), site=ctx.site(pf, pf.node), detail={'flows to': sorted(got)})
     for i, at in ((0, 'start_addr'), (1, 'end_addr')):
         got = {a for pc, args in rets for a, p_ in ap.items() if i in indices_in(args.get(p_, NONE), ups[1].term)}
-        ctx.check(got == {at}, 'W1', 'Traffic Selector: the %s address decoded becomes attribute %s' % ('first' if i == 0 else 'second', at),
-                  key=('W1', 'ts', 'flow', at), site=ctx.site(pf, pf.node), detail={'flows to': sorted(got)})
+        ctx.check(got == {at}, r1, 'Traffic Selector: the %s address decoded becomes attribute %s' % ('first' if i == 0 else 'second', at),
+                  key=(r1, 'ts', 'flow', at), site=ctx.site(pf, pf.node), detail={'flows to': sorted(got)})
     ea = list(tq.args(pk).values())[1:]
     me = ('param', 'self')
     want = [('attr', me, 'ts_type'), ('attr', me, 'ip_proto'), None, ('attr', me, 'start_port'), ('attr', me, 'end_port'),
@@ -607,16 +618,16 @@ def check_ts(ctx):
             except (tq.NoValue, Exception):
                 vals.append(None)
         ok = vals == [16, 40]
-    ctx.check(ok, 'W1', 'Traffic Selector: the encoder writes the same attributes at those positions and length = 8 + 2 * address width',
-              key=('W1', 'ts', 'encode-args'), site=ctx.site(tb, tb.node), detail={'found': [tq.text(a) for a in ea]})
+    ctx.check(ok, r1, 'Traffic Selector: the encoder writes the same attributes at those positions and length = 8 + 2 * address width',
+              key=(r1, 'ts', 'encode-args'), site=ctx.site(tb, tb.node), detail={'found': [tq.text(a) for a in ea]})
     fa_d = tq.args(list(ups[1].args.values())[0]) if tq.is_call(list(ups[1].args.values())[0], 'method.format') else {}
     fa_e = tq.args(list(tq.args(pk).values())[0]) if tq.is_call(list(tq.args(pk).values())[0], 'method.format') else {}
-    ctx.check(len(fa_d) == 1 and addr_len_ok(ctx, list(fa_d.values())[0], ('index', ups[0].term, const(0))), 'W2',
+    ctx.check(len(fa_d) == 1 and addr_len_ok(ctx, list(fa_d.values())[0], ('index', ups[0].term, const(0))), r2,
               'Traffic Selector: address width is 4 for TS_IPV4_ADDR_RANGE (7) and 16 for TS_IPV6_ADDR_RANGE (8) in parse',
-              key=('W2', 'ts-addr-len', 'parse'), site=ctx.site(pf, pf.node))
-    ctx.check(len(fa_e) == 1 and addr_len_ok(ctx, list(fa_e.values())[0], ('attr', me, 'ts_type')), 'W2',
+              key=(r2, 'ts-addr-len', 'parse'), site=ctx.site(pf, pf.node))
+    ctx.check(len(fa_e) == 1 and addr_len_ok(ctx, list(fa_e.values())[0], ('attr', me, 'ts_type')), r2,
               'Traffic Selector: address width is 4 for TS_IPV4_ADDR_RANGE (7) and 16 for TS_IPV6_ADDR_RANGE (8) in to_bytes',
-              key=('W2', 'ts-addr-len', 'to_bytes'), site=ctx.site(tb, tb.node))
+              key=(r2, 'ts-addr-len', 'to_bytes'), site=ctx.site(tb, tb.node))
     # TS payload loop: selectors are cut by their own length field
     c2 = prog.cls(M + 'PayloadTS')
     pf2, tb2 = c2.lookup('parse'), c2.lookup('to_bytes')
@@ -626,7 +637,7 @@ def check_ts(ctx):
     ok = len(cur) == 1 and cur[0][2] == const(4)
     lens = [u for u in unpack_calls(D2) if upos(u)[2] is not None and strip_ids(upos(u)[2])[0] == 'acc']
     ok = ok and len(lens) == 1 and layout(upos(lens[0])[0])[0] == [(0, 2), (2, 2)]
-    ctx.check(ok, 'W2', 'TS payload: each selector\'s length is read from octets 2-3 of the selector', key=('W2', 'ts-selector-length'),
+    ctx.check(ok, r2, 'TS payload: each selector\'s length is read from octets 2-3 of the selector', key=(r2, 'ts-selector-length'),
               site=ctx.site(pf2, pf2.node))
     if ok:
         ln = ('index', strip_ids(lens[0].term), const(1))
@@ -638,14 +649,14 @@ def check_ts(ctx):
         for t in all_terms(D2):
             used |= indices_in(t, lens[0].term)
         ok = ok and 0 not in used
-    ctx.check(ok, 'W2', 'TS payload: selectors start after the 4 fixed octets, each parsed at the cursor, which advances by the announced length',
-              key=('W2', 'ts-loop'), site=ctx.site(pf2, pf2.node))
+    ctx.check(ok, r2, 'TS payload: selectors start after the 4 fixed octets, each parsed at the cursor, which advances by the announced length',
+              key=(r2, 'ts-loop'), site=ctx.site(pf2, pf2.node))
     pk2, rest2 = first_pack(ctx.sval(tb2).ret())
     tsl = ('attr', me, 'traffic_selectors')
     rs = [strip_ids(x) for x in rest2]
     ctx.check(len(rs) == 1 and rs[0][0] == 'sum' and rs[0][2] == tsl and tq.is_call(rs[0][3], 'message.TrafficSelector.to_bytes')
-              and rs[0][3][2] == ('elem', tsl, 0), 'W2', 'TS payload: the encoder appends every selector in order',
-              key=('W2', 'ts-encode-loop'), site=ctx.site(tb2, tb2.node))
+              and rs[0][3][2] == ('elem', tsl, 0), r2, 'TS payload: the encoder appends every selector in order',
+              key=(r2, 'ts-encode-loop'), site=ctx.site(tb2, tb2.node))
 
 
 def check_transform_attr(ctx):
